@@ -15,6 +15,9 @@ import XotModel.Lemmas.ArenaExamples
 import XotModel.Lemmas.ArenaTraverse
 import XotModel.Lemmas.ArenaRevTraverse
 import XotModel.Model.ValueAccess
+import XotModel.Lemmas.ReachAxes
+import XotModel.Lemmas.ReachHist
+import XotModel.Lemmas.FinvTrav
 
 namespace XotModel.Props
 open XotModel XotModel.Axes
@@ -539,5 +542,168 @@ example : Arena.reverseTraverse Arena.sampleB ⟨1, 0⟩ 9 =
     Arena.reverseTraverse Arena.sampleB ⟨2, 0⟩ 3 =
       .done Arena.sampleB [.end ⟨2, 0⟩, .end ⟨4, 0⟩, .start ⟨4, 0⟩] := by
   decide
+
+end XotModel.Props
+
+/-! # ================================================================================================
+    # REACHABLE TREES (branch wt-reach): the structural hypotheses `wf` / `kidsSorted` are theorems
+    # ================================================================================================
+
+  The theorems above that assume `wf t` (non-normal nodes are leaves, no normal child before a
+  non-normal one) or `kidsSorted` (namespaces, attributes, normal nodes) say nothing about ill-ordered
+  trees.  The public API cannot build such a tree: every forest reachable from the empty store by an
+  extended history (`Store.xrun` over `Forest.XCall`, Model/FhistSpec.lean: the whole mutating API on
+  nodes, node creation, set_text_consolidation, remove_insignificant_whitespace,
+  create_missing_prefixes, deduplicate_namespaces, clone_with_prefixes; arbitrary arguments, every
+  outcome) has the invariant `Forest.Inv` (`C04_reach_ext` = `Reach.inv_reachable`), and the erasure of
+  every parentless tree of such a forest satisfies both hypotheses at every node (Lemmas/ReachNode.lean,
+  ReachAxes.lean).  The headline theorems restated for reachable trees, with NO structural hypothesis:
+  the only side condition left is `XCall.wellKinded` (a map insertion given as DATA carries an entry of
+  the map's kind; the Rust API builds the entry itself), and `Valid r.erase p` — `p` names a node. -/
+
+namespace XotModel.Props
+open XotModel XotModel.Axes
+
+/-- ⟦C07_reachable_wf⟧ Both structural hypotheses of this file hold of every parentless tree of every
+    reachable forest: `wf`, and `kidsSorted` at EVERY node. -/
+theorem C07_reachable_wf (env : Env) (cs : List Forest.XCall) (hw : ∀ c ∈ cs, c.wellKinded) :
+    ∀ r ∈ ((⟨Forest.init, env⟩ : Store).xrun cs).forest.roots,
+      wf r.erase = true ∧ ∀ p : Path, kidsSorted (subAt r.erase p).kids :=
+  fun _ hr => ⟨Reach.wf_root (Reach.inv_reachable env cs hw) hr,
+    Reach.kidsSorted_root (Reach.inv_reachable env cs hw) hr⟩
+
+/-- Every live handle of a reachable forest is a node of one of its trees: it has a path `q` there, the
+    path is `Valid` in the erased tree and leads back to the handle.  (So "for all roots `r`, for all
+    `Valid` paths" below ranges over every live node of the store — and over nothing else:
+    `C04_traversals_live`.) -/
+theorem C07_reachable_nodes (env : Env) (cs : List Forest.XCall) (h : Nat)
+    (hl : ((⟨Forest.init, env⟩ : Store).xrun cs).forest.isLive h = true) :
+    ∃ r ∈ ((⟨Forest.init, env⟩ : Store).xrun cs).forest.roots, ∃ q : Path,
+      HTree.pathOf h r = some q ∧ Valid r.erase q ∧ HTree.handleAt r q = some h := by
+  obtain ⟨r, _, hr, q, hq⟩ := Forest.rootOf?_of_live hl
+  obtain ⟨s, hs, rfl⟩ := HTree.ftrav_pathOf_at? _ r q hq
+  exact ⟨r, hr, q, hq, (Reach.valid_erase_iff r q).mpr (by rw [hs]; rfl),
+    by simp [HTree.ftrav_handleAt_eq, hs]⟩
+
+/-- ⟦C07_reachable_partition⟧ **The partition law, for every node of every reachable tree.**  For a
+    normal node: ancestors, the node, descendants, preceding and following together are exactly the
+    normal nodes of its tree, each once; for an attribute or namespace node the four axes alone. -/
+theorem C07_reachable_partition (env : Env) (cs : List Forest.XCall) (hw : ∀ c ∈ cs, c.wellKinded) :
+    ∀ r ∈ ((⟨Forest.init, env⟩ : Store).xrun cs).forest.roots, ∀ p : Path, Valid r.erase p →
+      (isNormalAt r.erase p = true →
+        (axis r.erase .ancestor p ++ (p :: axis r.erase .descendant p) ++ axis r.erase .preceding p ++
+          axis r.erase .following p).Perm (pre r.erase) ∧
+        (axis r.erase .ancestor p ++ (p :: axis r.erase .descendant p) ++ axis r.erase .preceding p ++
+          axis r.erase .following p).Nodup) ∧
+      (isNormalAt r.erase p = false →
+        (axis r.erase .ancestor p ++ axis r.erase .descendant p ++ axis r.erase .preceding p ++
+          axis r.erase .following p).Perm (pre r.erase) ∧
+        (axis r.erase .ancestor p ++ axis r.erase .descendant p ++ axis r.erase .preceding p ++
+          axis r.erase .following p).Nodup) := by
+  intro r hr p hp
+  have hwf := (C07_reachable_wf env cs hw r hr).1
+  exact ⟨fun hn => ⟨C07_partition hwf hp hn, C07_partition_disjoint hwf hp hn⟩,
+    fun hn => C07_partition_abnormal hwf hp hn⟩
+
+/-- ⟦C07_reachable_order⟧ **Document order, for every node of every reachable tree**: descendants and
+    following are the normal nodes below / after the node in document order, ancestors and preceding
+    the proper ancestors / the nodes before it that are not ancestors in REVERSE document order — as
+    equations with the document-order specifications, and as sortedness. -/
+theorem C07_reachable_order (env : Env) (cs : List Forest.XCall) (hw : ∀ c ∈ cs, c.wellKinded) :
+    ∀ r ∈ ((⟨Forest.init, env⟩ : Store).xrun cs).forest.roots, ∀ p : Path, Valid r.erase p →
+      axis r.erase .descendantOrSelf p = (pre r.erase).filter (fun q => p.isPrefixOf q) ∧
+      axis r.erase .following p = (pre r.erase).filter (fun q => docLt p q && !p.isPrefixOf q) ∧
+      axis r.erase .preceding p = ((pre r.erase).filter (fun q => docLt q p && !q.isPrefixOf p)).reverse ∧
+      axis r.erase .ancestor p = ((pre r.erase).filter (fun q => q.isPrefixOf p && q != p)).reverse ∧
+      (axis r.erase .descendantOrSelf p).Pairwise (fun a b => docLt a b = true) ∧
+      (axis r.erase .following p).Pairwise (fun a b => docLt a b = true) ∧
+      (axis r.erase .ancestor p).Pairwise (fun a b => docLt b a = true) ∧
+      (axis r.erase .preceding p).Pairwise (fun a b => docLt b a = true) := by
+  intro r hr p hp
+  have hwf := (C07_reachable_wf env cs hw r hr).1
+  obtain ⟨o1, o2, o3, o4⟩ := C07_order hwf hp
+  exact ⟨(C07_descendants hp).1, (C07_following hp).1, (C07_preceding hwf hp).1, (C07_axis_ancestor hwf hp).1,
+    o1, o2, o3, o4⟩
+
+/-- ⟦C07_reachable_all⟧ **The `all_*` variants and the attribute axis, for every node of every reachable
+    tree**: the raw child list is namespace nodes ++ attribute nodes ++ children; `all_descendants` is
+    the node, then the subtrees of its namespace nodes, its attribute nodes, its children, in this
+    order, `all_traverse` likewise between `Start` and `End`; `attribute_nodes` are exactly the
+    attribute children in order; `next_sibling` / `previous_sibling` of ANY node (attribute and
+    namespace nodes included) is the nearest following / preceding sibling of its category. -/
+theorem C07_reachable_all (env : Env) (cs : List Forest.XCall) (hw : ∀ c ∈ cs, c.wellKinded) :
+    ∀ r ∈ ((⟨Forest.init, env⟩ : Store).xrun cs).forest.roots, ∀ p : Path, Valid r.erase p →
+      (subAt r.erase p).kids =
+        (subAt r.erase p).namespaceNodes ++ (subAt r.erase p).attributeNodes ++ (subAt r.erase p).normalKids ∧
+      allDescendants r.erase p = p :: (allPreList 0
+        ((subAt r.erase p).namespaceNodes ++ (subAt r.erase p).attributeNodes ++
+          (subAt r.erase p).normalKids)).map (p ++ ·) ∧
+      allTraverse r.erase p = .start p :: ((rawEdgesList 0
+        ((subAt r.erase p).namespaceNodes ++ (subAt r.erase p).attributeNodes ++
+          (subAt r.erase p).normalKids)).map (Edge.mapPath (p ++ ·)) ++ [.stop p]) ∧
+      attributeNodes r.erase p = (rawChildPaths r.erase p).filter (fun q => categoryAt r.erase q == .attribute) ∧
+      (∀ i : Nat, Valid r.erase (p ++ [i]) →
+        nextSibling r.erase (p ++ [i]) = (axis r.erase .followingSibling (p ++ [i])).head? ∧
+        previousSibling r.erase (p ++ [i]) = (axis r.erase .precedingSibling (p ++ [i])).head?) := by
+  intro r hr p hp
+  have hs := (C07_reachable_wf env cs hw r hr).2 p
+  obtain ⟨a1, a2, a3⟩ := C07_all hs
+  exact ⟨a1, a2, a3, (C07_attribute_axis hp).2.2 hs, fun i hi => C07_next_previous_sibling_any hi hs⟩
+
+/-- ⟦C07_reachable_children⟧ **Children, for every node of every reachable tree**: `children` are the normal
+    nodes whose parent is the node, in document order, `first_child` / `last_child` its ends,
+    `reverse_children` its reverse, `child_index` the position in it; and every plain iterator from
+    the node yields normal nodes of the tree only. -/
+theorem C07_reachable_children (env : Env) (cs : List Forest.XCall) (hw : ∀ c ∈ cs, c.wellKinded) :
+    ∀ r ∈ ((⟨Forest.init, env⟩ : Store).xrun cs).forest.roots, ∀ p : Path, Valid r.erase p →
+      children r.erase p = (pre r.erase).filter (fun q => parent q == some p) ∧
+      firstChild r.erase p = (children r.erase p).head? ∧
+      lastChild r.erase p = (children r.erase p).getLast? ∧
+      reverseChildren r.erase p = (children r.erase p).reverse ∧
+      (∀ child i, childIndex r.erase p child = some i ↔ (children r.erase p)[i]? = some child) ∧
+      (∀ q ∈ preceding r.erase p, Valid r.erase q ∧ isNormalAt r.erase q = true) ∧
+      (∀ q ∈ children r.erase p, Valid r.erase q ∧ isNormalAt r.erase q = true) ∧
+      (∀ q ∈ axis r.erase .ancestor p, Valid r.erase q ∧ isNormalAt r.erase q = true) := by
+  intro r hr p hp
+  have hwf := (C07_reachable_wf env cs hw r hr).1
+  obtain ⟨c1, _, c3, c4⟩ := C07_children hwf hp
+  obtain ⟨_, _, n3, _, n5, n6, _⟩ := C07_plain_normal hwf hp
+  exact ⟨c1, c3, c4, (C07_reverse_children hp).2 hwf, fun child i => (C07_child_index hwf hp).1 i, n3, n5, n6⟩
+
+/-- ⟦C07_reachable_edges⟧ **`NodeEdge::next` / `previous`, for every normal node of every reachable tree**:
+    the walks enumerate `traverse` / `reverse_traverse` and continue with the successor of `End` /
+    the predecessor of `Start`. -/
+theorem C07_reachable_edges (env : Env) (cs : List Forest.XCall) (hw : ∀ c ∈ cs, c.wellKinded) :
+    ∀ r ∈ ((⟨Forest.init, env⟩ : Store).xrun cs).forest.roots, ∀ p : Path, Valid r.erase p →
+      isNormalAt r.erase p = true → ∀ m : Nat,
+      edgeWalk (Edge.next r.erase) ((traverse r.erase p).length + m) (.start p) =
+        traverse r.erase p ++ contN r.erase m (Edge.next r.erase (.stop p)) ∧
+      edgeWalk (Edge.previous r.erase) ((reverseTraverse r.erase p).length + m) (.stop p) =
+        reverseTraverse r.erase p ++ contP r.erase m (Edge.previous r.erase (.start p)) := by
+  intro r hr p hp hn m
+  have hwf := (C07_reachable_wf env cs hw r hr).1
+  exact ⟨(C07_edges_next hwf hp hn m).1, (C07_edges_previous hwf hp hn m).1⟩
+
+/-! ### Non-vacuity: the 16-step history of Props/C04 (`Reach.exCalls`)
+
+  Final forest: one tree, `<e xmlns:p=".." xmlns:n0=".."><e xmlns:n0="..">x</e></e>` (`Reach.exRoot`).  The
+  reachable-tree theorems instantiated at it: the hypotheses hold, the node `[2]` (the inner element)
+  and the namespace node `[1]` are valid, and the conclusions evaluate to the expected lists. -/
+
+example : ∀ c ∈ Reach.exCalls, c.wellKinded := Reach.exCalls_wellKinded
+example : Reach.exRoot ∈ ((⟨Forest.init, Reach.exEnv⟩ : Store).xrun Reach.exCalls).forest.roots := Reach.exRoot_mem
+example : Valid Reach.exRoot.erase [2] ∧ isNormalAt Reach.exRoot.erase [2] = true ∧
+    Valid Reach.exRoot.erase [1] ∧ isNormalAt Reach.exRoot.erase [1] = false := by decide
+example : wf Reach.exRoot.erase = true ∧ kidsSorted (subAt Reach.exRoot.erase []).kids :=
+  ⟨(C07_reachable_wf _ _ Reach.exCalls_wellKinded _ Reach.exRoot_mem).1,
+   (C07_reachable_wf _ _ Reach.exCalls_wellKinded _ Reach.exRoot_mem).2 []⟩
+example : (axis Reach.exRoot.erase .ancestor [2] ++ ([2] :: axis Reach.exRoot.erase .descendant [2]) ++
+    axis Reach.exRoot.erase .preceding [2] ++ axis Reach.exRoot.erase .following [2]).Perm (pre Reach.exRoot.erase) :=
+  ((C07_reachable_partition _ _ Reach.exCalls_wellKinded _ Reach.exRoot_mem [2] (by decide)).1 (by decide)).1
+example : pre Reach.exRoot.erase = [[], [2], [2, 1]] ∧ axis Reach.exRoot.erase .ancestor [2, 1] = [[2], []] ∧
+    axis Reach.exRoot.erase .following [1] = [[2], [2, 1]] ∧
+    allDescendants Reach.exRoot.erase [] = [[], [0], [1], [2], [2, 0], [2, 1]] ∧
+    nextSibling Reach.exRoot.erase [0] = some [1] ∧ nextSibling Reach.exRoot.erase [1] = none := by decide
+example : HTree.pathOf 8 Reach.exRoot = some [2, 1] ∧ HTree.handleAt Reach.exRoot [2, 1] = some 8 := by decide
 
 end XotModel.Props
